@@ -130,6 +130,22 @@ def check_c12(case, stats):
     gn = float(np.linalg.norm(G))
     wtag = 'weighted' if wv is not None and wmode != 'uniform' else 'unweighted'
     if gn > 1.01 * tol:
+      # discriminating predicate of known finding KF4: the solver's second exit (no step of its fixed grid
+      # 1e-10..1, relative to the gradient norm, lowers the objective).  Decided with the harness' OWN
+      # gradient and objective: if a grid step along the true gradient does lower the true objective, the
+      # early stop is not that stall and stays an ordinary violation.
+      stall = True
+      for s_ in np.logspace(-10, 0, 10):
+        Mn = M - (s_ / gn) * G
+        wn_, vn_ = np.linalg.eigh((Mn + Mn.T) / 2)
+        Mn = vn_.dot((np.maximum(wn_, 1e-8) * vn_).T)
+        if O.lsml_objective(Mn, vab, vcd, wn, Pinv0) < f1 - 1e-13 * max(abs(f1), 1.0):
+          stall = False
+          break
+      if stall:
+        raise Violation('C12/not-stationary/line-search-stall/' + name,
+                        'stopped after %d < %d iterations with ||grad f_w|| = %g > tol = %g: no step of the grid 1e-10..1 lowers '
+                        'the objective (lambda_min(M) / lambda_max(M) = %g)' % (est.n_iter_, case['max_iter'], gn, tol, ev.min() / ev.max()))
       raise Violation('C12/not-stationary/%s/%s' % (wtag, name), 'stopped after %d < %d iterations with ||grad f_w|| = %g > tol = %g'
                       % (est.n_iter_, case['max_iter'], gn, tol))
     Mref, fref = O.lsml_descend(M, vab, vcd, wn, Pinv0, iters=60)
